@@ -220,14 +220,20 @@ Proof.
 Qed.
 
 
-(* take(len).read_to_end: EOF ends the read with what has been read so far *)
+(* no Interrupted event in the schedule: tokio's loops (read_exact, read_to_end) do not retry one *)
+Definition no_intr (r : reader) : Prop := forall e, In e (rd_sched HO r) -> e <> EIntr.
+Lemma no_intr_suffix r r' : suffix (rd_sched HO r') (rd_sched HO r) -> no_intr r -> no_intr r'.
+Proof. intros Hs Hn e He. apply Hn. eapply suffix_In; eassumption. Qed.
+
+(* take(len).read_to_end: EOF ends the read with what has been read so far; an Interrupted of the
+   transport is returned (no retry), hence the schedule without one *)
 Lemma take_read_to_end_spec : forall fuel r len acc,
-  (N.to_nat len + length (rd_sched HO r) < fuel)%nat -> fail_ok r ->
+  (N.to_nat len + length (rd_sched HO r) < fuel)%nat -> fail_ok r -> no_intr r ->
   exists x r', take_read_to_end HO fuel r len acc = (x, r') /\ rd_fail HO r' = rd_fail HO r /\
      suffix (rd_sched HO r') (rd_sched HO r) /\ rd_calls HO r <= rd_calls HO r' /\
      loop_post (fun acc rest => Ok (acc ++ rest)) r len acc x r'.
 Proof.
-  induction fuel as [|f IH]; intros r len acc Hm Hok; [lia|].
+  induction fuel as [|f IH]; intros r len acc Hm Hok Hni; [lia|].
   cbn [take_read_to_end]. destruct (len =? 0) eqn:El.
   { apply N.eqb_eq in El. subst len. exists (Ok acc), r.
     split; [reflexivity|]. split; [reflexivity|]. split; [apply suffix_refl|]. split; [lia|].
@@ -237,20 +243,14 @@ Proof.
   { destruct (rd_read_fail r len kind Ef) as (s' & Hs & Hr). rewrite Hr.
     apply fails_now_some in Ef. destruct (Hok _ _ Ef) as [Hk _].
     eexists (Err kind), _. split.
-    { destruct kind; try reflexivity. now elim Hk. }
+    { reflexivity. }
     cbn [rd_fail rd_sched rd_calls rd_rest]. split; [reflexivity|]. split; [exact Hs|]. split; [lia|].
     left. exists (rd_calls HO r), kind. split; [exact Ef|]. split; reflexivity. }
   pose proof (fails_now_none r Ef Hok) as Hnf.
   assert (Hlen : 0 < len) by lia.
   pose proof (rd_read_nofail r len Hlen Ef) as Hro.
   remember (rd_read HO r len) as o eqn:Eo. destruct Hro as [s' Hs | j s' Hj Hs].
-  - pose proof (suffix_length _ _ Hs) as Hl. cbn [length] in Hl.
-    destruct (IH (mkRd HO (rd_rest HO r) s' (rd_calls HO r + 1) (rd_fail HO r)) len acc) as (x & r' & He & Hf & Hsf & Hc & Hp).
-    { cbn [rd_sched]. lia. }
-    { intros k kind Hfk. cbn [rd_fail rd_calls] in *. apply Hnf in Hfk. exact Hfk. }
-    exists x, r'. split; [exact He|]. cbn [rd_fail rd_sched rd_calls rd_rest] in *.
-    split; [exact Hf|]. split; [eapply suffix_trans; [exact Hsf | eapply suffix_cons; exact Hs]|]. split; [lia|].
-    exact Hp.
+  - exfalso. apply (Hni EIntr); [|reflexivity]. eapply suffix_In; [exact Hs | now left].
   - pose proof (suffix_length _ _ Hs) as Hl.
     rewrite blen_take. remember (rd_rest HO r) as rest eqn:Erest.
     destruct (N.min j (blen rest) =? 0) eqn:E0.
@@ -263,6 +263,7 @@ Proof.
       as (x & r' & He & Hf & Hsf & Hc & Hp).
     { cbn [rd_sched]. lia. }
     { intros k kind Hfk. cbn [rd_fail rd_calls] in *. apply Hnf in Hfk. exact Hfk. }
+    { intros e He. cbn [rd_sched] in He. apply Hni. eapply suffix_In; eassumption. }
     exists x, r'. split; [exact He|]. cbn [rd_fail rd_sched rd_calls rd_rest] in *.
     split; [exact Hf|]. split; [eapply suffix_trans; [exact Hsf | exact Hs]|]. split; [lia|].
     unfold loop_post in *. cbn [rd_fail rd_sched rd_calls rd_rest] in *. rewrite <- Erest.
@@ -279,10 +280,6 @@ Proof.
 Qed.
 
 (* tokio's read_exact is std's without the Interrupted retry *)
-Definition no_intr (r : reader) : Prop := forall e, In e (rd_sched HO r) -> e <> EIntr.
-Lemma no_intr_suffix r r' : suffix (rd_sched HO r') (rd_sched HO r) -> no_intr r -> no_intr r'.
-Proof. intros Hs Hn e He. apply Hn. eapply suffix_In; eassumption. Qed.
-
 Lemma read_exact_tokio_std : forall fuel r len acc, fail_ok r -> no_intr r ->
   read_exact_tokio HO fuel r len acc = read_exact_std HO fuel r len acc.
 Proof.
@@ -317,10 +314,10 @@ Proof.
   apply read_exact_std_spec; [lia | exact Hok].
 Qed.
 
-Lemma tokio_read_bytes_exact_spec r len : fail_ok r -> exact_spec (tokio_read_bytes_exact HO) r len.
+Lemma tokio_read_bytes_exact_spec r len : fail_ok r -> no_intr r -> exact_spec (tokio_read_bytes_exact HO) r len.
 Proof.
-  intros Hok. unfold exact_spec, tokio_read_bytes_exact, rx_fuel.
-  destruct (take_read_to_end_spec (S (N.to_nat len + length (rd_sched HO r))) r len [] ltac:(lia) Hok)
+  intros Hok Hni. unfold exact_spec, tokio_read_bytes_exact, rx_fuel.
+  destruct (take_read_to_end_spec (S (N.to_nat len + length (rd_sched HO r))) r len [] ltac:(lia) Hok Hni)
     as (x & r' & He & Hf & Hs & Hc & Hp).
   rewrite He. destruct Hp as [(k & kind & Hfk & Hx & Hck) | (Hb & [(Hle & Hx & Hr) | (Hlt & Hx)])]; subst x.
   - exists (Err kind), r'. repeat (split; [first [reflexivity | assumption]|]). left. now exists k, kind.
@@ -390,13 +387,13 @@ Proof. intros Hn Hi. apply exact_spec_enough; [apply tokio_read_n_spec; [apply f
 Theorem tokio_read_n_short r len : rd_fail HO r = None -> no_intr r -> blen (rd_rest HO r) < len ->
   exists r', tokio_read_n HO r len = (Err KUnexpectedEof, r') /\ rd_fail HO r' = None /\ suffix (rd_sched HO r') (rd_sched HO r).
 Proof. intros Hn Hi. apply exact_spec_short; [apply tokio_read_n_spec; [apply fail_ok_none, Hn | exact Hi] | exact Hn]. Qed.
-Theorem tokio_read_bytes_exact_enough r len : rd_fail HO r = None -> len <= blen (rd_rest HO r) ->
+Theorem tokio_read_bytes_exact_enough r len : rd_fail HO r = None -> no_intr r -> len <= blen (rd_rest HO r) ->
   exists r', tokio_read_bytes_exact HO r len = (Ok (take len (rd_rest HO r)), r') /\ rd_rest HO r' = drop len (rd_rest HO r) /\
      rd_fail HO r' = None /\ suffix (rd_sched HO r') (rd_sched HO r).
-Proof. intros Hn. apply exact_spec_enough; [apply tokio_read_bytes_exact_spec, fail_ok_none, Hn | exact Hn]. Qed.
-Theorem tokio_read_bytes_exact_short r len : rd_fail HO r = None -> blen (rd_rest HO r) < len ->
+Proof. intros Hn Hi. apply exact_spec_enough; [apply tokio_read_bytes_exact_spec; [apply fail_ok_none, Hn | exact Hi] | exact Hn]. Qed.
+Theorem tokio_read_bytes_exact_short r len : rd_fail HO r = None -> no_intr r -> blen (rd_rest HO r) < len ->
   exists r', tokio_read_bytes_exact HO r len = (Err KUnexpectedEof, r') /\ rd_fail HO r' = None /\ suffix (rd_sched HO r') (rd_sched HO r).
-Proof. intros Hn. apply exact_spec_short; [apply tokio_read_bytes_exact_spec, fail_ok_none, Hn | exact Hn]. Qed.
+Proof. intros Hn Hi. apply exact_spec_short; [apply tokio_read_bytes_exact_spec; [apply fail_ok_none, Hn | exact Hi] | exact Hn]. Qed.
 
 (* C10.8 *)
 Theorem read_exact_sync_fault r len k kind :
@@ -423,14 +420,14 @@ Proof.
   intros k' kind' Hf'. rewrite Hf in Hf'. injection Hf' as <- <-. now split.
 Qed.
 Theorem tokio_read_bytes_exact_fault r len k kind :
-  rd_fail HO r = Some (k, kind) -> kind <> KInterrupted -> rd_calls HO r <= k ->
+  rd_fail HO r = Some (k, kind) -> kind <> KInterrupted -> rd_calls HO r <= k -> no_intr r ->
   exists x r', tokio_read_bytes_exact HO r len = (x, r') /\
     ((x = Err kind /\ rd_calls HO r' = k + 1) \/
      (rd_calls HO r' <= k /\
       ((len <= blen (rd_rest HO r) /\ x = Ok (take len (rd_rest HO r)) /\ rd_rest HO r' = drop len (rd_rest HO r)) \/
        (blen (rd_rest HO r) < len /\ x = Err KUnexpectedEof)))).
 Proof.
-  intros Hf Hk Hc. apply exact_spec_fault; [|exact Hf]. apply tokio_read_bytes_exact_spec.
+  intros Hf Hk Hc Hni. apply exact_spec_fault; [|exact Hf]. apply tokio_read_bytes_exact_spec; [|exact Hni].
   intros k' kind' Hf'. rewrite Hf in Hf'. injection Hf' as <- <-. now split.
 Qed.
 
